@@ -57,7 +57,11 @@ S8 = ("{g0} = 1\n\n\nclass W:\n    def fn(self, {p0}):\n        {l0} = [\n  {p0}
       "        return len({l0}) + {u0} + len(s) + t\n\n\nprint(W().fn(3), {g0})\n")
 S8_HOLES = {"g0": ["a", "b"], "p0": ["a", "b"], "l0": ["a", "b", "c"], "u0": ["a", "b"]}
 
-SCHEMAS = {"S8": (S8, S8_HOLES), "S6": (S6, S6_HOLES), "S7": (S7, S7_HOLES), "S1": (S1, S1_HOLES), "S2": (S2, S2_HOLES), "S3A": (S3A, S3A_HOLES), "S3B": (S3B, S3B_HOLES), "S3C": (S3C, S3C_HOLES),
+S9 = ("{g0} = 1\n\n\ndef fn({p0}):\n    from xlibmod import tool, {imp}\n    {l0} = tool()\n    if {p0}:\n        {l0} += 1\n    x1 = 1\n    x2 = 2\n    x3 = 3\n    x4 = 4\n"
+      "    return {l0} + {p0} + {u0} + {imp}\n\n\nprint(fn(1), {g0})\n")
+S9_HOLES = {"g0": ["a", "b"], "p0": ["a", "b"], "l0": ["a", "b", "c"], "u0": ["a", "b"], "imp": ["late", "a"]}
+
+SCHEMAS = {"S9": (S9, S9_HOLES), "S8": (S8, S8_HOLES), "S6": (S6, S6_HOLES), "S7": (S7, S7_HOLES), "S1": (S1, S1_HOLES), "S2": (S2, S2_HOLES), "S3A": (S3A, S3A_HOLES), "S3B": (S3B, S3B_HOLES), "S3C": (S3C, S3C_HOLES),
            "S3D": (S3D, S3D_HOLES), "S3E": (S3E, S3E_HOLES), "S4": (S4, S4_HOLES), "S5": (S5, S5_HOLES)}
 
 
